@@ -27,7 +27,7 @@ EXTENDS Naturals, Sequences, FiniteSets, TLC
 
 CONSTANTS MaxSteps,     \* length of the histories
           Deviations,   \* subset of {"SetDataAbsolute", "RemoveFromGlobalRoot", "KickUnprivileged", "DeepMarksStay", "CutNoNotify", "PrivBitsAccepted", "ReorderFromGlobalRoot",
-                        \*            "FilteredMarksStay", "QuietCreateNoMarks"}
+                        \*            "FilteredMarksStay", "QuietCreateNoMarks", "DeafMarksStay"}
           RECORD,       \* TRUE: `last` describes the step (behaviour generation)
           Actors,       \* the sessions that issue commands (model checking / generation: {"s1"}; trace validation: all)
           MenuKind      \* "full" | "small"
@@ -70,6 +70,9 @@ Sel(w, s, p) == Owner(p) # s /\ MN(w, s, p, TRUE, w.tree[p])         \* p is sel
 (* elementary changes of the world, as DataNode / StorageReflectSession perform them *)
 NotifySet(w, p, by) == {s \in w.conn : w.marks[p][s] > 0 /\ s # by}   \* NotifySubscribersThatNodeChanged (no reflect-to-self)
 
+\* PR_NAME_DISABLE_SUBSCRIPTIONS ("if set as a parameter, disable all subscription updates"): the session's marks exist as usual, but nothing is sent to it; what it
+\* misses is not re-sent when the parameter is removed (the documentation is silent: its mirror simply lags - hush - until later changes reach it)
+Deaf(w, s) == \E e \in w.params[s] : e[1] = "!Dsub"
 \* StorageReflectSession::NodeChanged for a payload change: what session s is sent - "set", "rem" (the node stopped passing its filters) or nothing
 SetOutcome(w, s, p, oldHave, old, new) ==
     IF ~HasFilt(w, s) THEN "set"
@@ -90,11 +93,12 @@ PutNode(w, p, pay, by, quiet) ==
                         !.born = IF p \in DOMAIN w.born THEN w.born ELSE (p :> w.clock) @@ w.born,          \* children are kept (and walked) in the order of their creation
                         !.clock = IF p \in DOMAIN w.born THEN w.clock ELSE w.clock + 1]
         out(s) == SetOutcome(w1, s, p, ~isNew, old, pay)
+        told == {s \in NotifySet(w1, p, by) : ~Deaf(w1, s)}
     IN IF quiet THEN [w1 EXCEPT !.hush = @ \cup {<<s, p>> : s \in NotifySet(w1, p, by)}]
-       ELSE [w1 EXCEPT !.mirror = [s \in S |-> IF s \notin NotifySet(w1, p, by) THEN w1.mirror[s]
+       ELSE [w1 EXCEPT !.mirror = [s \in S |-> IF s \notin told THEN w1.mirror[s]
                                                ELSE IF out(s) = "set" THEN (p :> pay) @@ w1.mirror[s]
                                                ELSE IF out(s) = "rem" THEN Drop(w1.mirror[s], p) ELSE w1.mirror[s]],
-                        !.hush = @ \ {<<s, p>> : s \in {t \in NotifySet(w1, p, by) : out(t) # "none"}}]
+                        !.hush = (@ \ {<<s, p>> : s \in {t \in told : out(t) # "none"}}) \cup {<<s, p>> : s \in {t \in NotifySet(w1, p, by) \ told : out(t) # "none"}}]
 
 SetIdx(w, q, seq) == [w EXCEPT !.idx = IF seq = <<>> THEN [x \in DOMAIN w.idx \ {q} |-> w.idx[x]] ELSE (q :> seq) @@ w.idx]
 IdxOf(w, q) == IF q \in DOMAIN w.idx THEN w.idx[q] ELSE <<>>
@@ -109,8 +113,9 @@ RemoveSub(w, p, by, tell) ==
         w1   == SetIdx(w, Parent(p), Without(IdxOf(w, Parent(p)), Leaf(p)))
     IN [w1 EXCEPT !.tree = [q \in keep |-> w.tree[q]], !.marks = [q \in keep |-> w.marks[q]], !.ctr = [q \in keep |-> w.ctr[q]], !.born = [q \in keep |-> w.born[q]],
                   !.idx = [q \in DOMAIN w1.idx \ gone |-> w1.idx[q]],
-                  !.mirror = [s \in S |-> [q \in {x \in DOMAIN w.mirror[s] : ~(tell /\ x \in gone /\ s \in NotifySet(w, x, by) /\ RemOutcome(w, s, x, w.tree[x]) = "rem")} |-> w.mirror[s][q]]],
-                  !.hush = {e \in w.hush : ~(tell /\ e[2] \in gone /\ e[1] \in NotifySet(w, e[2], by) /\ RemOutcome(w, e[1], e[2], w.tree[e[2]]) = "rem")}]
+                  !.mirror = [s \in S |-> [q \in {x \in DOMAIN w.mirror[s] : ~(tell /\ ~Deaf(w, s) /\ x \in gone /\ s \in NotifySet(w, x, by) /\ RemOutcome(w, s, x, w.tree[x]) = "rem")} |-> w.mirror[s][q]]],
+                  !.hush = {e \in w.hush : ~(tell /\ ~Deaf(w, e[1]) /\ e[2] \in gone /\ e[1] \in NotifySet(w, e[2], by) /\ RemOutcome(w, e[1], e[2], w.tree[e[2]]) = "rem")}
+                           \cup UNION {{<<s, x>> : x \in gone \cap DOMAIN w.mirror[s]} : s \in {u \in S : Deaf(w, u)}}]      \* a deaf session keeps the vanished nodes in its mirror
 
 RECURSIVE RemoveAll(_, _, _)
 RemoveAll(w, ps, by) == IF ps = {} THEN w
@@ -182,6 +187,7 @@ Disconnect(w, s) ==
         w2 == IF hostEmpty THEN RemoveSub(w1, <<HostOf(s)>>, s, tell) ELSE w1
         wipe(p) == /\ \E x \in w.psub[s] : Match(Fix(x), p) /\ ("FilteredMarksStay" \notin Deviations \/ x.f = 0 \/ x.f = w2.tree[p])    \* the walk ignores the filters
                    /\ ("DeepMarksStay" \notin Deviations \/ Len(p) <= 3)
+                   /\ ("DeafMarksStay" \notin Deviations \/ ~Deaf(w, s))
     IN [w2 EXCEPT !.marks = [p \in DOMAIN w2.tree |-> IF wipe(p) THEN [w2.marks[p] EXCEPT ![s] = 0] ELSE w2.marks[p]],
                   !.params[s] = {}, !.psub[s] = {}, !.conn = @ \ {s}, !.mirror[s] = <<>>, !.hush = {e \in w2.hush : e[1] # s}]
 RECURSIVE DisconnectAll(_, _)
@@ -258,7 +264,8 @@ FullMenu ==
     \cup {C(o, FALSE, <<"*">>, "", 0) : o \in Privileged \ {"KICK"}}
     \cup {ForgePriv, CP("session", "s2"), CP("myparam", "9"), CP("!SnKy", "/*/*")}
     \cup {C("SUBSCRIBE", x[1], x[2], "", 0) : x \in SubPaths}
-    \cup {C("REMOVEPARAM", FALSE, <<>>, k, 0) : k \in {"*", "SUBSCRIBE:*", "myparam", "!Priv", "session"}}
+    \cup {C("REMOVEPARAM", FALSE, <<>>, k, 0) : k \in {"*", "SUBSCRIBE:*", "myparam", "!Priv", "session", "!Dsub"}}
+    \cup {CP("!Dsub", "1")}
     \cup {C("REMOVEPARAM", FALSE, <<"*">>, "SUBSCRIBE:", 0)}
     \cup {C("MSG", TRUE, <<"*", "*">>, "s2", 0), C("MSG", FALSE, <<>>, "s3", 0)}
     \cup {Batch(<<ForgePriv, KickAll>>),
@@ -272,7 +279,8 @@ SmallMenu ==
      C("INSERTORDEREDDATA", FALSE, <<"a">>, "zz", 8), C("REORDERDATA", TRUE, <<"hA", "s2", "a", "I0">>, "zz", 0),
      KickAll, C("SUBSCRIBE", FALSE, <<"*">>, "", 0), C("SUBSCRIBE", FALSE, <<"*", "*">>, "", 0), C("SUBSCRIBE", TRUE, <<"*", "*">>, "", 0),
      C("REMOVEPARAM", FALSE, <<>>, "*", 0), ForgePriv, Batch(<<ForgePriv, KickAll>>),
-     C("SETDATA", FALSE, <<"a", "b">>, "quiet", 7), C("SETDATA", FALSE, <<"a">>, "", 2), C("SUBSCRIBE", FALSE, <<"a">>, "", 2), C("SUBSCRIBE", TRUE, <<"*", "*", "c">>, "", 1)}
+     C("SETDATA", FALSE, <<"a", "b">>, "quiet", 7), C("SETDATA", FALSE, <<"a">>, "", 2), C("SUBSCRIBE", FALSE, <<"a">>, "", 2), C("SUBSCRIBE", TRUE, <<"*", "*", "c">>, "", 1),
+     CP("!Dsub", "1")}
 
 Menu == IF MenuKind = "full" THEN FullMenu ELSE SmallMenu
 
@@ -363,7 +371,13 @@ TreeShape == /\ \A p \in DOMAIN st.tree : Len(p) >= 1 /\ (Len(p) > 1 => Parent(p
              /\ \A s \in S : (s \in st.conn) = (Root(s) \in DOMAIN st.tree)
              /\ \A p \in DOMAIN st.tree : Len(p) = 1 => \E s \in st.conn : HostOf(s) = p[1]
              /\ DOMAIN st.marks = DOMAIN st.tree /\ DOMAIN st.ctr = DOMAIN st.tree /\ DOMAIN st.born = DOMAIN st.tree
-\* privilege bits are the server's to give
+\* privilege bits are the server's to give: a session gets them iff its address matches one of the patterns the server was configured with (muscled's privkick= /
+\* privban= / privunban= / privall=, central-state fields priv0..priv3) - the WHOLE address, as every pattern match.  The table lists, for a configured pattern, client
+\* addresses equal to it / extending it / a prefix of it / unrelated, and whether the session is privileged; the harness runs server instances configured that way:
+\* the unprivileged sessions' KICK / ADDBANS / REMOVEBANS / ADDREQUIRES / REMOVEREQUIRES must be bounced and change nothing (NoPrivilege, Frame, OnlySelfLeaves)
+PrivCases == << [pat |-> "127.0.0.2", hosts |-> <<"127.0.0.2", "127.0.0.20", "127.0.0.21", "127.0.0", "127.0.0.1", "10.0.0.2", "227.0.0.2">>, priv |-> <<TRUE, FALSE, FALSE, FALSE, FALSE, FALSE, FALSE>>],
+               [pat |-> "10.0.0.1", hosts |-> <<"10.0.0.1", "10.0.0.17", "10.0.0.100", "110.0.0.1">>, priv |-> <<TRUE, FALSE, FALSE, FALSE>>],
+               [pat |-> "127.0.1.*", hosts |-> <<"127.0.1.7", "127.0.1.70", "127.0.10.7", "127.0.1">>, priv |-> <<TRUE, TRUE, FALSE, FALSE>>] >>
 NoPrivilege == \A s \in S : ~HasPriv(st, s)
 \* nobody but the departing session itself ever gets disconnected
 OnlySelfLeaves == [][st'.conn # st.conn => (kind' = "init" \/ (kind' = "depart" /\ st'.conn = st.conn \ {who'}))]_vars     \* ("init": a new execution in a trace)
